@@ -1,6 +1,9 @@
 import Driver.Util
 import Verif.Model.MptStore
 import Verif.Model.MptInterp
+import Verif.Gen.Constants
+import Std.Data.HashMap
+import Std.Data.HashSet
 /-! Model driver for the store-layer suites c03/c04/c05 (op language: /verif/go/harness/mptstore.go). -/
 namespace Driver.MptStore
 open Verif.Mpt Verif.MptStore Driver
@@ -11,8 +14,11 @@ structure St where
   saved : List (Nat × Bytes × Node × Bool) := []   -- version, root, tree, superseded? of every saved round (oldest first)
   kind0 : String := "level"                    -- store kind of the block trie: level | mem | pndb
   snaps : List (Nat × Trie) := []              -- op `snap`: the trie value at that moment (a change set taken from it)
+  flag : String := ""                          -- self-check failures of the driver's fast paths (appended to the next output line)
+  fast0 : Option (List (Bytes × Bytes) × List Bytes) := none   -- the block trie's pending (key, encoding) pairs and dead keys as computed by `bulkClosed` (valid until the next op on it)
 
-def maxPrune : Nat := 1000
+/-- `maxPruneNodes` of `PruneBelowVersion`, as regenerated from the Go source before the build -/
+def maxPrune : Nat := Verif.Gen.Constants.maxPruneNodes
 
 def rootStr (k : Bytes) : String := if k.isEmpty then "-" else hex k
 
@@ -45,8 +51,26 @@ partial def getChain (s : St) (id : Nat) (k : Bytes) : Option Bytes :=
     | some v => some v
     | none => if pid = id then Map.get s.ps.nodes k else getChain s pid k
 
-/-- (key, stored encoding) of every node of a tree in one bottom-up pass; returns the key of the root node first.
-    Same values as `refs`/`Ref.key`/`Ref.encode` of the model, without recomputing subtree hashes. -/
+/-- (reference, key, stored encoding) of every node of a tree in one bottom-up pass; returns the key of the root node
+    first.  Same values as `refs`/`Ref.key`/`Ref.encode` of the model, without recomputing subtree hashes. -/
+def annotR : Node → List Nib → Bytes × List (Ref × Bytes × Bytes)
+  | .empty, _ => ([], [])
+  | .leaf o lp lv, pre =>
+    let b := pre.map nibChar ++ [sep] ++ lp.map nibChar ++ [sep] ++ lv
+    let k := sha3 (le64 o ++ b)
+    (k, [(⟨pre, .leaf o lp lv⟩, k, [2] ++ le64 o ++ le64 o ++ b)])
+  | .full o ch val, pre =>
+    let rs := (List.finRange 16).map (fun i => annotR (ch i) (pre ++ [i]))
+    let b := rs.flatMap (fun r => (if r.1.isEmpty then [] else hexBytes r.1) ++ [sep]) ++ (match val with | some b => b | none => [])
+    let k := sha3 (le64 o ++ b)
+    (k, (⟨pre, .full o ch val⟩, k, [4] ++ le64 o ++ le64 o ++ b) :: rs.flatMap (·.2))
+  | .ext o ep c, pre =>
+    let r := annotR c (pre ++ ep)
+    let b := ep.map nibChar ++ [sep] ++ r.1
+    let k := sha3 (le64 o ++ b)
+    (k, (⟨pre, .ext o ep c⟩, k, [8] ++ le64 o ++ le64 o ++ b) :: r.2)
+
+/-- `annotR` without the references -/
 def annot : Node → List Nib → Bytes × List (Bytes × Bytes)
   | .empty, _ => ([], [])
   | .leaf o lp lv, pre =>
@@ -66,6 +90,15 @@ def annot : Node → List Nib → Bytes × List (Bytes × Bytes)
 
 def resolvesFast (get : Bytes → Option Bytes) (t : Node) : Bool :=
   (annot t []).2.all (fun e => get e.1 == some e.2)
+
+@[noinline] def storeHM (m : Store) : Std.HashMap Bytes Bytes := m.foldl (fun h e => h.insert e.1 e.2) {}
+
+@[noinline] def resolvesHM (hm : Std.HashMap Bytes Bytes) (t : Node) : Bool :=
+  (annot t []).2.all (fun e => hm.get? e.1 == some e.2)
+
+/-- `resolvesFast (Map.get m)`; large stores are indexed by a hash table first -/
+def resolvesStore (m : Store) (t : Node) : Bool :=
+  if m.length ≤ 400 then resolvesFast (Map.get m) t else resolvesHM (storeHM m) t
 
 def fmtEvents (es : List Event) : String :=
   ",".intercalate (es.filterMap (fun e =>
@@ -88,6 +121,52 @@ def observe (s : St) (id : Nat) (t : Trie) : String :=
   let gone := if kind = "level" then sortStr (t.db.deleted.map hex) else []
   "ok root=" ++ rootStr t.root ++ " iter=" ++ it ++ " changes=" ++ ",".intercalate ch ++ " deletes=" ++ ",".intercalate dl
     ++ " cur=" ++ ",".intercalate cur ++ " gone=" ++ ",".intercalate gone
+
+/-- the pairs of `bulk … <n> <seed> …` (64-bit LCG shared with suite c17 and the Go harness) -/
+def bulkPairs (n seed : Nat) : List (List Nib × Bytes) :=
+  ((List.range n).foldl (fun (acc : List (List Nib × Bytes) × Nat) _ =>
+    let x := (acc.2 * 6364136223846793005 + 1442695040888963407) % 18446744073709551616
+    let path : List Nib := (List.range 8).map (fun j => Fin.ofNat 16 ((x >>> (60 - 4 * j)) % 16))
+    let val : Bytes := [UInt8.ofNat (0x41 + (x >>> 8) % 26), UInt8.ofNat (x % 256)]
+    ((path, val) :: acc.1, x)) ([], seed)).1.reverse
+
+def parseBulk : List String → Option (List (List Nib × Bytes))
+  | [] => some []
+  | n :: sd :: rest => do
+    let a ← n.toNat?; let b ← sd.toNat?; let r ← parseBulk rest
+    pure (bulkPairs a b ++ r)
+  | _ => none
+
+/-- the literal model: one `Trie.insert` after the other -/
+def bulkLiteral (t : Trie) (kvs : List (List Nib × Bytes)) : Trie :=
+  kvs.foldl (fun t (p, b) => (t.insert sha3 p b).1) t
+
+/-- Closed form of `bulkLiteral` for a trie whose collector and level are still empty, for inserts only: the tree is the
+    structural trie's; a node of the new tree that the old tree does not have is a pending change (its OLD: the old
+    tree's node at the same position - replacements keep the position, `SamePos`), a node of the old tree that the new
+    one does not have is a pending delete (and remembered as deleted by the level).  One hashing pass per tree instead of
+    one per event; for small batches the driver computes both and reports a mismatch. -/
+def bulkClosed (t : Trie) (kvs : List (List Nib × Bytes)) : Trie :=
+  let tree' := kvs.foldl (fun d (p, b) => Verif.Mpt.insert t.version b d p) t.tree
+  let a0 := (annotR t.tree []).2
+  let r1 := annotR tree' []
+  let keys0 : Std.HashSet Bytes := a0.foldl (fun m e => m.insert e.2.1) {}
+  let keys1 : Std.HashSet Bytes := r1.2.foldl (fun m e => m.insert e.2.1) {}
+  let pos0 : Std.HashMap (List Nat) Ref := a0.foldl (fun m e => m.insert (e.1.pos.map (·.val)) e.1) {}
+  let news := r1.2.filter (fun e => !keys0.contains e.2.1)
+  let olds := a0.filter (fun e => !keys1.contains e.2.1)
+  { t with
+    tree := tree', root := r1.1,
+    cc := { t.cc with
+      changes := news.map (fun e => (e.2.1, ⟨pos0.get? (e.1.pos.map (·.val)), e.1⟩)),
+      deletes := olds.map (fun e => (e.2.1, e.1)) },
+    db := { current := news.map (·.2), deleted := olds.map (·.2.1) } }
+
+def trieSig (t : Trie) : List String :=
+  [rootStr t.root] ++
+  sortStr (t.cc.getChanges.map (fun c => hex (c.new.key sha3) ++ (match c.old with | some o => "<" ++ hex (o.key sha3) | none => ""))) ++ ["|"] ++
+  sortStr (t.cc.getDeletes.map (fun d => hex (d.key sha3))) ++ ["|"] ++
+  sortStr (t.db.current.map (fun e => hex e.1 ++ "=" ++ hex e.2)) ++ ["|"] ++ sortStr (t.db.deleted.map hex)
 
 /-- the replay order of a merge (see `adversarialOrder` in go/harness/mptstore.go): if some key is both the New of one
     change and the Old of another, creations of such keys first, then the rest, by New key within a rank; otherwise
@@ -149,7 +228,7 @@ def parseKVs (x : String) : Option (List (List Nib × Bytes)) :=
 def nodeCount (s : St) : String := toString s.ps.nodes.length
 
 def sortedNodes (m : Store) : List (Bytes × Bytes) :=
-  (m.toArray.qsort (fun a b => hex a.1 < hex b.1)).toList
+  (((m.map (fun e => (hex e.1, e))).toArray.qsort (fun a b => a.1 < b.1)).toList).map (·.2)
 
 def pstoreLine (s : St) : String :=
   let ns := sortedNodes s.ps.nodes
@@ -158,12 +237,63 @@ def pstoreLine (s : St) : String :=
   let ds := recs.map (fun e => toString e.1 ++ ":" ++ ",".intercalate (sortStr (e.2.map hex)))
   "ok keys=" ++ ",".intercalate (ns.map (fun e => hex e.1)) ++ " vd=" ++ hex (sha3 cat) ++ " dead=" ++ ";".intercalate ds
 
+/-- `PStore.apply` with hash tables instead of association-list scans (the model's `Map.put` copies the list on every
+    put): same resulting key → value map, used for large stores; on small stores the driver runs the model's own
+    `applyAll` and cross-checks this one against it. -/
+def applyFast (ps : PStore) : Write → PStore
+  | .putNodes es =>
+    let hm : Std.HashMap Bytes Bytes := es.foldl (fun m e => m.insert e.1 e.2) {}
+    let old : Std.HashSet Bytes := ps.nodes.foldl (fun m e => m.insert e.1) {}
+    let fresh := (es.foldl (fun (acc : List (Bytes × Bytes) × Std.HashSet Bytes) e =>
+      if acc.2.contains e.1 || old.contains e.1 then acc else ((e.1, hm.getD e.1 e.2) :: acc.1, acc.2.insert e.1)) ([], {})).1
+    { ps with nodes := fresh ++ ps.nodes.map (fun e => match hm.get? e.1 with | some v => (e.1, v) | none => e) }
+  | .delNodes ks =>
+    let set : Std.HashSet Bytes := ks.foldl (fun m k => m.insert k) {}
+    { ps with nodes := ps.nodes.filter (fun e => !set.contains e.1) }
+  | w => ps.apply w
+
+def storeSig (ps : PStore) : List String :=
+  sortStr (ps.nodes.map (fun e => hex e.1 ++ "=" ++ hex e.2)) ++ ["|"] ++
+  sortStr (ps.dead.map (fun e => toString e.1 ++ ":" ++ ",".intercalate (sortStr (e.2.map hex))))
+
+def writeSize : Write → Nat
+  | .putNodes es => es.length
+  | .delNodes ks => ks.length
+  | .putRec _ _ => 1
+  | .delRecs vs => vs.length
+
+/-- the number of entries of every durable write of a stream, as the harness logs them on the fake RocksDB -/
+def sizesStr (ws : List Write) : String :=
+  if ws.isEmpty then "-" else "+".intercalate (ws.map (fun w => toString (writeSize w)))
+
+/-- the model's `applyAll`; for large stores the hash-table version -/
+def applyAllD (ps : PStore) (ws : List Write) : PStore × String :=
+  if ps.nodes.length + (ws.map writeSize).sum ≤ 400 then
+    let a := ps.applyAll ws
+    (a, if storeSig a != storeSig (ws.foldl applyFast ps) then " APPLY-FAST-MISMATCH" else "")
+  else (ws.foldl applyFast ps, "")
+
+/-- `saveStream sha3 t`; after a closed-form bulk the keys and encodings are the ones already computed (no second
+    hashing pass per reference) -/
+def saveStreamD (s : St) (t : Trie) : List Write :=
+  match s.fast0 with
+  | some (news, olds) => [.putNodes news, .putRec t.version olds]
+  | none => saveStream sha3 t
+
+def streamSig (ws : List Write) : List String :=
+  ws.flatMap (fun w => match w with
+    | .putNodes es => "P" :: sortStr (es.map (fun e => hex e.1 ++ "=" ++ hex e.2))
+    | .putRec v ks => ("R" ++ toString v) :: sortStr (ks.map hex)
+    | .delNodes ks => "D" :: sortStr (ks.map hex)
+    | .delRecs vs => ["X" ++ toString vs])
+
 def doSave (s : St) (t : Trie) (k : Option Nat) : St :=
-  let stream := saveStream sha3 t
-  let ps1 := match k with
-    | some k => s.ps.applyAll (stream.take k)   -- the crashed attempt; the round is then re-executed and saved again
-    | none => s.ps
-  let s1 := { s with ps := ps1.applyAll stream, saved := s.saved ++ [(t.version, t.root, t.tree, false)] }
+  let stream := saveStreamD s t
+  let (ps1, f1) := match k with
+    | some k => applyAllD s.ps (stream.take k)   -- the crashed attempt; the round is then re-executed and saved again
+    | none => (s.ps, "")
+  let (ps2, f2) := applyAllD ps1 stream
+  let s1 := { s with ps := ps2, saved := s.saved ++ [(t.version, t.root, t.tree, false)], flag := s.flag ++ f1 ++ f2 }
   if s.kind0 = "pndb" then setTrie s1 0 { t with db := { t.db with current := s1.ps.nodes } } else s1
 
 /-- the trie-building ops go through the model's interpreter `Forest.step` (Verif.Model.MptInterp) -/
@@ -174,7 +304,8 @@ def tstep (s : St) (op : TOp) : St × String :=
       match findTrie s id with
       | some (_, c) =>
         -- hypothesis of the merge theorems, evaluated on every replayed merge: the ordering is never stuck
-        if orderStuckD (mergeOrder c.cc.getChanges) || orderStuckD c.cc.getChanges then " ORDER-STUCK" else ""
+        -- (a theorem since round 4, `order_never_stuck`; still evaluated on every merge of up to 100 changes)
+        if c.cc.changes.length ≤ 100 && (orderStuckD (mergeOrder c.cc.getChanges) || orderStuckD c.cc.getChanges) then " ORDER-STUCK" else ""
       | none => ""
     | _ => ""
   let (f, res) := Forest.step sha3 mergeOrder ⟨s.tries⟩ op
@@ -198,9 +329,9 @@ def donorBase (s : St) (rest : List String) : List String × Node :=
   let (rest, base) := if rest.getLast? = some "base" then (rest.dropLast, (lastSaved s).2) else (rest, Node.empty)
   (rest.filter (· ≠ "-"), base)
 
-def step (s : St) (w : List String) : St × String :=
+def step1 (s : St) (w : List String) : St × String :=
   match w with
-  | ["light"] => (s, "ok")
+  | "light" :: _ => (s, "ok")
   | ["snap", id] =>
     match findTrie s id.toNat! with
     | some (_, t) =>
@@ -253,6 +384,23 @@ def step (s : St) (w : List String) : St × String :=
     match parsePath p with
     | some p => tstep s (.del id.toNat! p)
     | none => (s, "bad-op")
+  | "bulk" :: id :: rest =>
+    match findTrie s id.toNat!, parseBulk rest with
+    | some (_, t), some kvs =>
+      let fresh := t.cc.changes.isEmpty && t.cc.deletes.isEmpty && t.db.current.isEmpty && t.db.deleted.isEmpty
+      if fresh && !rest.isEmpty then
+        let t1 := bulkClosed t kvs
+        let f0 := (t1.db.current, t1.db.deleted)
+        let chk := if kvs.length ≤ 40 && trieSig t1 != trieSig (bulkLiteral t kvs) then " BULK-CLOSED-FORM-MISMATCH" else ""
+        let chk := chk ++ (if kvs.length ≤ 40 && streamSig [.putNodes f0.1, .putRec t1.version f0.2] != streamSig (saveStream sha3 t1)
+          then " SAVE-FAST-MISMATCH" else "")
+        let s1 := syncP (setTrie s id.toNat! t1)
+        (if id.toNat! = 0 then { s1 with fast0 := some f0 } else s1, "ok " ++ rootStr t1.root ++ chk)
+      else
+        let t1 := bulkLiteral t kvs
+        let s1 := syncP (setTrie s id.toNat! t1)
+        (if id.toNat! = 0 then { s1 with fast0 := none } else s1, "ok " ++ rootStr t1.root)
+    | _, _ => (s, "bad-op")
   | ["get", id, p] =>
     match findTrie s id.toNat!, parsePath p with
     | some (_, t), some p => (s, match lookup t.tree p with | some b => "ok " ++ hex b | none => "notpresent")
@@ -265,35 +413,50 @@ def step (s : St) (w : List String) : St × String :=
     | none => (s, "bad-op")
   | ["save"] =>
     match findTrie s 0 with
-    | some (_, t) => let s' := doSave s t none; (s', "ok " ++ rootStr t.root ++ " n=" ++ nodeCount s')
+    | some (_, t) => let s' := doSave s t none; (s', "ok " ++ rootStr t.root ++ " n=" ++ nodeCount s' ++ " w=" ++ sizesStr (saveStreamD s t))
     | none => (s, "bad-op")
   | ["save-timeout", _] =>
     -- the save left through its context while the batch was stalled; the stalled writer then wrote the batch
     match findTrie s 0 with
     | some (_, t) =>
-      let s1 := { s with ps := s.ps.applyAll ((saveStream sha3 t).take 1) }
+      let (ps1, f1) := applyAllD s.ps ((saveStream sha3 t).take 1)
+      let s1 := { s with ps := ps1, flag := s.flag ++ f1 }
       let s1 := if s.kind0 = "pndb" then setTrie s1 0 { t with db := { t.db with current := s1.ps.nodes } } else s1
       (s1, "ok")
     | none => (s, "bad-op")
   | "save-fail" :: _ => (match findTrie s 0 with | some _ => (s, "ok") | none => (s, "bad-op"))
   | ["crash-save", k] =>
     match findTrie s 0 with
-    | some (_, t) => let s' := doSave s t (some k.toNat!); (s', "ok " ++ rootStr t.root ++ " n=" ++ nodeCount s')
+    | some (_, t) => let s' := doSave s t (some k.toNat!); (s', "ok " ++ rootStr t.root ++ " n=" ++ nodeCount s' ++ " w=" ++ sizesStr (saveStreamD s t))
     | none => (s, "bad-op")
   | ["reopen", i] =>
     match s.saved[i.toNat!]? with
     | some (_, _, tree, _) =>
-      if resolvesFast (Map.get s.ps.nodes) tree then (s, "ok " ++ fmtPairs (iterate tree [])) else (s, "missing")
+      if resolvesStore s.ps.nodes tree then (s, "ok " ++ fmtPairs (iterate tree [])) else (s, "missing")
     | none => (s, "bad-op")
   | ["prune", v] =>
-    let s' := { s with ps := s.ps.applyAll (pruneStream maxPrune s.ps (pruneVersion v)) }
-    (s', "ok n=" ++ nodeCount s')
+    let stream := pruneStream maxPrune s.ps (pruneVersion v)
+    let (ps', f1) := applyAllD s.ps stream
+    let s' := { s with ps := ps', flag := s.flag ++ f1 }
+    (s', "ok n=" ++ nodeCount s' ++ " w=" ++ sizesStr stream)
   | ["crash-prune", v, k] =>
-    let ps1 := s.ps.applyAll ((pruneStream maxPrune s.ps (pruneVersion v)).take k.toNat!)
-    let s' := { s with ps := ps1.applyAll (pruneStream maxPrune ps1 (pruneVersion v)) }
-    (s', "ok n=" ++ nodeCount s')
+    let (ps1, f1) := applyAllD s.ps ((pruneStream maxPrune s.ps (pruneVersion v)).take k.toNat!)
+    let stream := pruneStream maxPrune ps1 (pruneVersion v)
+    let (ps2, f2) := applyAllD ps1 stream
+    let s' := { s with ps := ps2, flag := s.flag ++ f1 ++ f2 }
+    (s', "ok n=" ++ nodeCount s' ++ " w=" ++ sizesStr stream ++ " mid=" ++ toString ps1.nodes.length)
   | ["pstore"] => (s, pstoreLine s)
   | _ => (s, "bad-op")
+
+/-- `fast0` survives only ops that do not touch the block trie -/
+def step (s : St) (w : List String) : St × String :=
+  let r := step1 s w
+  let r := if r.1.flag = "" then r else ({ r.1 with flag := "" }, r.2 ++ r.1.flag)
+  match w.head? with
+  | some h =>
+    if ["bulk", "light", "observe", "get", "pstore", "reopen", "prune", "crash-prune"].contains h then r
+    else ({ r.1 with fast0 := none }, r.2)
+  | none => r
 
 def main : IO Unit := loop ({} : St) step
 
